@@ -137,10 +137,12 @@ class ExpandedTraceback:
         # may happen inside Pedal (e.g., the mocked import or a blocked builtin).
         frames = traceback.extract_tb(exc_info[2])
         student_frames = [frame for frame in frames if frame[0] in show_filenames]
-        self.line_number = (student_frames or frames)[-1][1]
+        located_frame = (student_frames or frames)[-1]
+        # Report whole-file numbering while a section (with a line offset) is active
+        self.line_number = located_frame[1] + line_offsets.get(located_frame[0], 0)
         # A syntax error found while compiling has no frame in the student's file
         if isinstance(exception, SyntaxError) and not student_frames and exception.lineno is not None:
-            self.line_number = exception.lineno
+            self.line_number = exception.lineno + line_offsets.get(exception.filename, 0)
         self.original_code_lines = original_code_lines
         self.student_files = student_files
 
